@@ -105,7 +105,7 @@ class TLCResult:
         self.error = None if self.ok else out[-3000:]
 
 
-def tlc(workdir, module, cfg_text, workers=None, timeout=1800, extra=(), files=(), simulate=None):
+def tlc(workdir, module, cfg_text, workers=None, timeout=1800, extra=(), files=(), simulate=None, heap="8g"):
     """Run TLC on spec/<module>.tla inside workdir (all spec modules are copied there)."""
     for f in os.listdir(SPEC):
         if f.endswith(".tla"):
@@ -116,7 +116,7 @@ def tlc(workdir, module, cfg_text, workers=None, timeout=1800, extra=(), files=(
     open(cfg, "w").write(cfg_text)
     meta = os.path.join(workdir, "meta-" + module)
     shutil.rmtree(meta, ignore_errors=True)
-    cmd = ["java", "-Xss512m", "-XX:+UseParallelGC", "-Djava.io.tmpdir=" + workdir,
+    cmd = ["java", "-Xss512m", "-Xmx" + heap, "-XX:+UseParallelGC", "-Djava.io.tmpdir=" + workdir,
            "-cp", TLA_CP, "tlc2.TLC", "-workers", str(workers or "auto"), "-metadir", meta,
            "-config", cfg] + list(extra) + [module + ".tla"]
     t = time.time()
@@ -281,7 +281,7 @@ def tlc_trace(w, name, module, cfg_text, rows, chunk=1500, timeout=3000, obsfile
         k, (off, plen, part) = arg
         d = w.sub("%s-t%d" % (name, k))
         write_ndjson(os.path.join(d, obsfile), part)
-        r = tlc(d, module, cfg_text, workers=1, timeout=timeout, files=extra_files)
+        r = tlc(d, module, cfg_text, workers=1, timeout=timeout, files=extra_files, heap="1500m")
         vp = os.path.join(d, "verdict.ndjson")
         if not r.ok or not os.path.exists(vp):
             raise Inconclusive("%s did not accept/finish chunk %d:\n%s" % (module, k, r.error or r.out[-2000:]))
@@ -292,7 +292,8 @@ def tlc_trace(w, name, module, cfg_text, rows, chunk=1500, timeout=3000, obsfile
         return off, plen, v, r
 
     merged, states, trans = {"n": 0}, 0, 0
-    with ThreadPoolExecutor(max_workers=NCPU) as ex:
+    # (each validator gets a 1.5 GB heap; at most 8 at a time: the whole check stays below ~14 GB)
+    with ThreadPoolExecutor(max_workers=min(NCPU, 8)) as ex:
         for off, plen, v, r in ex.map(one, enumerate(parts)):
             states += r.distinct
             trans += r.generated
